@@ -27,7 +27,7 @@ Proof. reflexivity. Qed.
 Lemma ended_is_End l : Pipeline.beh N fill_ok write_ok l = PEnd -> exists r, l = End r.
 Proof.
   destruct l as
-    [rest| |i|i id|i id|i id|i|i|i v| | | |id|id| | | | | | |j|j v| | | |v|r v|r]; simpl; try discriminate.
+    [rest| |i|i id|i id|i id|i|i|i v| | | |id|id| | | | | | |j|j v| | | |v|r v|r|srest]; simpl; try discriminate.
   - destruct rest as [|[id b] r]; discriminate.
   - eauto.
 Qed.
@@ -36,9 +36,9 @@ Qed.
 Lemma pipeline_conserving : conserving beh weight tok_val tok_ev.
 Proof.
   intros l. destruct l as
-    [rest| |i|i id|i id|i id|i|i|i v| | | |id|id| | | | | | |j|j v| | | |v|r v|r]; simpl; try done.
+    [rest| |i|i id|i id|i id|i|i|i v| | | |id|id| | | | | | |j|j v| | | |v|r v|r|srest]; simpl; try done.
   - destruct rest as [|[id b] r]; simpl; [done|].
-    intros g k Hin. alts Hin; simpl; [|done]. rewrite ids_of_cons. multiset_solver.
+    intros g k Hin. alts Hin; simpl; [|done|reflexivity]. rewrite ids_of_cons. multiset_solver.
   - intros g k Hin. alts Hin; simpl; [done|]. split; [|multiset_solver].
     intros v. destruct v as [id b|id|id|id|]; simpl; try multiset_solver. destruct b; simpl; multiset_solver.
   - intros o. destruct (fill_ok id); simpl; multiset_solver.
@@ -57,6 +57,7 @@ Proof.
   - intros g k Hin. alts Hin; simpl; [done|]. multiset_solver.
   - intros g k Hin. alts Hin; simpl. split; [|multiset_solver]. intros v0. multiset_solver.
   - intros o. simpl. multiset_solver.
+  - intros g k Hin. apply elem_of_nil in Hin. destruct Hin.
   - intros g k Hin. apply elem_of_nil in Hin. destruct Hin.
 Qed.
 
@@ -109,7 +110,7 @@ Definition live (l : loc) (c : nat) : Prop :=
   | SCloseErr => c = c_serr N
   | RLoop | RRead | RSendErr | RClose => c = c_rerr N
   | EIdle _ | ESend _ _ | ECWait | ECClose => c = c_eout N
-  | DIdle | DEmit _ | Junk _ _ | End _ => False
+  | DIdle | DEmit _ | Junk _ _ | End _ | SrcStalled _ => False
   end.
 
 Ltac dmatch := repeat match goal with |- context [match ?x with _ => _ end] => is_var x; destruct x end.
@@ -122,7 +123,7 @@ Proof.
   intros l. split.
   - intros l' Hc. unfold conts in Hc.
     destruct l as
-      [rest| |i|i id|i id|i id|i|i|i v| | | |id|id| | | | | | |j|j v| | | |v|r v|r]; simpl in Hc.
+      [rest| |i|i id|i id|i id|i|i|i v| | | |id|id| | | | | | |j|j v| | | |v|r v|r|srest]; simpl in Hc.
     + destruct rest as [|[id b] r]; simpl in Hc; [subst; reflexivity|].
       destruct Hc as (g & k & rr & Hin & ->). alts Hin; reflexivity.
     + subst; reflexivity.
@@ -154,8 +155,9 @@ Proof.
     + destruct Hc as [o ->]. reflexivity.
     + destruct Hc as (g & k & rr & Hin & _). apply elem_of_nil in Hin. destruct Hin.
     + destruct Hc.
+    + destruct Hc as (g & k & rr & Hin & _). apply elem_of_nil in Hin. destruct Hin.
   - destruct l as
-      [rest| |i|i id|i id|i id|i|i|i v| | | |id|id| | | | | | |j|j v| | | |v|r v|r]; simpl.
+      [rest| |i|i id|i id|i id|i|i|i v| | | |id|id| | | | | | |j|j v| | | |v|r v|r|srest]; simpl.
     + destruct rest as [|[id b] r]; simpl; [pclose|psel].
     + pclose.
     + psel.
@@ -184,6 +186,7 @@ Proof.
     + intros o. simpl. split; [set_solver|tauto].
     + intros g k Hin. apply elem_of_nil in Hin. destruct Hin.
     + tauto.
+    + intros g k Hin. apply elem_of_nil in Hin. destruct Hin.
 Qed.
 
 (* every role occurs at exactly one index of the layout *)
@@ -292,7 +295,7 @@ Proof.
   assert (Hsame : role_of lj = role_of l -> False).
   { intros Heq. apply Hne. symmetry. eapply same_role_same_index; eauto. }
   destruct l as
-    [rest| |i0|i0 id|i0 id|i0 id|i0|i0|i0 v| | | |id|id| | | | | | |j0|j0 v| | | |v|r v|r];
+    [rest| |i0|i0 id|i0 id|i0 id|i0|i0|i0 v| | | |id|id| | | | | | |j0|j0 v| | | |v|r v|r|srest];
     simpl in Hbl; try discriminate.
   - (* Src [] closes c_in *)
     destruct rest as [|[id b] r]; [|discriminate]. injection Hbl as <- <-.
